@@ -240,13 +240,19 @@ func runTRaw(r *Run, s *TSpec) (*tSummary, error) {
 			}
 		}
 		for _, c := range sum.Inconcl {
+			// a case that ran into the in-process time limit is decided by the real command with a
+			// generous limit: a hang there (twice) is a violation; if the command terminates, the
+			// in-process time-out was load on the machine and says nothing about the property
 			if s.Confirm != nil {
 				if d := s.Confirm(r, c); d != "" {
 					r.Violation(map[string]any{"property": s.ID, "engine": "exec", "check_kind": "hang", "case": json.RawMessage(c), "diff": d})
 					continue
 				}
+				tot.Tags["inprocess_timeout_not_confirmed_by_command"]++
+				r.Logf("note: a case exceeded the in-process time limit; the command terminated normally on it (machine load)")
+				continue
 			}
-			r.Infra("a case exceeded the in-process time limit and was not confirmed")
+			r.Infra("a case exceeded the in-process time limit and cannot be confirmed")
 		}
 	}
 	if replayOnly {
